@@ -81,6 +81,7 @@ type vAssocOpts struct {
 	blockWrite   bool
 	maxEntries   uint32
 	realWindow   bool // keep the TSN tracking window the constructor chose (32+ words)
+	pickTSN      bool // initial TSNs from {2^32-2, 2^31-2, 5} instead of fully symbolic (multi-packet scenarios)
 }
 
 // vNewAssoc builds an association with a symbolic initial TSN, in state established,
@@ -97,7 +98,13 @@ func vNewAssocOpts(o vAssocOpts) (*Association, *vConn) {
 		BlockWrite:                o.blockWrite,
 		maxReassemblyQueueEntries: o.maxEntries,
 	}
-	a := createAssociationFromConfigWithTsn(cfg, nondetU32())
+	var tsn uint32
+	if o.pickTSN {
+		tsn = []uint32{0xfffffffe, 0x7ffffffe, 5}[vPick(3)]
+	} else {
+		tsn = nondetU32()
+	}
+	a := createAssociationFromConfigWithTsn(cfg, tsn)
 	a.localInterleaving = o.interleaving
 	a.peerVerificationTag = nondetU32()
 	a.sourcePort, a.destinationPort = 5000, 5000
@@ -106,7 +113,11 @@ func vNewAssocOpts(o vAssocOpts) (*Association, *vConn) {
 		// the real sizes are covered by the C05 harnesses
 		a.payloadQueue = newReceivePayloadQueue(192)
 	}
-	a.payloadQueue.init(nondetU32())
+	if o.pickTSN {
+		a.payloadQueue.init(7)
+	} else {
+		a.payloadQueue.init(nondetU32())
+	}
 	a.setState(established)
 	if o.interleaving {
 		a.peerInterleaving = true
